@@ -218,3 +218,26 @@ def check(run, prog, tier):
     bad = [e.get("l") for b, i, e in errs if frees and (frees[0][0].id == b.id and frees[0][1] < i or (frees[0][0].id != b.id and b.id in cfgq.reach_set(srs, [frees[0][0].id])))]
     run.ob("C16-c", "errors-before-free", not bad and bool(errs), "%d error returns, none after the old value was freed" % len(errs) if not bad else "error return(s) at line %s after the old value was freed" % bad,
            srs.file, srs.line, "safe_restore_svalue", what="no-clear restore frees the old value and then fails")
+
+    # ---- C16-e variable layout: every walker of the inherit tree accounts for the inherited part first
+    run.rule("C16-e", "functions that walk a program's variables with a running cursor (save_object_recurse, fgv_recurse, cns_recurse, cns_just_count ...) touch num_variables_defined only after the loop that recurses into prog->inherit[]: save and restore must agree that a program's block is [inherited subtrees..., own variables]", 4)
+    nw = 0
+    for f in sorted(prog.functions(), key=lambda x: (x.file, x.line)):
+        # recursion over the inherit list with a pointer cursor parameter
+        rec = [(b, i, n) for b, i, n in f.calls() if n.get("fn") and any(x.get("k") == "Mem" and x.get("f") == "inherit" for a in n.get("args", []) for x in walk(a))
+               and any("*" in (p.get("t") or "") and ("int *" in (p.get("t") or "") or "svalue_s **" in (p.get("t") or "")) for p in (f.params or []))]
+        uses = [(b, i, n) for b, i, n in f.nodes() if n.get("k") == "Mem" and n.get("f") == "num_variables_defined"]
+        cursor_adv = [(b, i, n) for b, i, n in f.nodes() if n.get("k") in ("Asg", "Un") and ((n.get("k") == "Asg" and n.get("op") == "+=") or (n.get("k") == "Un" and n.get("op") == "++"))
+                      and strip(n["L"] if n.get("k") == "Asg" else n["e"]).get("k") == "Un" and strip(n["L"] if n.get("k") == "Asg" else n["e"]).get("op") == "*"]
+        if not rec or not uses or not cursor_adv:
+            continue
+        if not any(n.get("fn") == f.name or n.get("fn", "").startswith(f.name[:3]) for b, i, n in rec):
+            continue
+        nw += 1
+        run.saw(f)
+        heads = [bid for bid in f.reachable() if f.branch_cond(bid) is not None and any(x.get("k") == "Mem" and x.get("f") == "num_inherited" for x in walk(f.branch_cond(bid)))]
+        bad = [n.get("l") for b, i, n in uses if not any(f.dominates(h, b.id) for h in heads)]
+        run.ob("C16-e", "layout:%s:%s" % (rel(f.file), f.name), bool(heads) and not bad,
+               "every use of num_variables_defined comes after the recursion over prog->inherit[]" if heads and not bad else "num_variables_defined is used at line(s) %s on a path that has not walked the inherited programs: the cursor skips only this program's own variables where the other walkers skip the whole subtree" % bad,
+               f.file, f.line, f.name, what="%s advances the variable cursor past a program without accounting for its inherited variables (save/restore layout disagreement)" % f.name)
+    run.need(nw >= 4, "inherit-tree walkers with a variable cursor (found %d)" % nw)
